@@ -198,8 +198,9 @@ Definition helper_close (c : conn) : conn * list obs :=
 (* _release_resources *)
 Definition release_resources (c : conn) : conn * list obs :=
   let '(c1, o1) := match helper c with
-                   | HOpen => let '(c', o) := helper_close c in (c' <| helper := HNone |> <| helper_obj := HClosed |>, o)
-                   | _ => (c, []) end in
+                   | HNone => (c, [])
+                   | _ => let '(c', o) := helper_close c in (c' <| helper := HNone |> <| helper_obj := HClosed |>, o)
+                   end in
   let '(c2, o2) := if socket c1 then (c1 <| socket := false |>, [OSocketClose]) else (c1, []) in
   (c2 <| pong_timer := None |> <| ping_timer := None |>, o1 ++ o2).
 
@@ -527,14 +528,16 @@ Definition finish_after_ready (c : conn) : conn * list obs :=
   match cs c0 with
   | Closed => finish_fail c0 Interrupted
   | _ =>
-    let c1 := internal_handlers (set_state c0 HsDone) in
+    (* the task will next wait for the hello/login call (its id is the next free one) *)
+    let c0' := set_task c0 TFinish ((get_task c0 TFinish) <| pc := PF_Hello (next_cid c0) |>) in
+    let c1 := internal_handlers (set_state c0' HsDone) in
     let send := if login c1 then [T_HELLO_REQ; T_CONNECT_REQ] else [T_HELLO_REQ] in
     let types := if login c1 then [T_HELLO_RESP; T_CONNECT_RESP] else [T_HELLO_RESP] in
     let last := if login c1 then T_CONNECT_RESP else T_HELLO_RESP in
     let '(c2, o, ex, cid) := call_begin c1 TFinish send types PAny (PTyIs last) CONNECT_REQUEST_TIMEOUT in
     match ex with
     | Some e => let '(c3, o3) := finish_fail c2 e in (c3, o ++ o3)
-    | None => (set_task c2 TFinish ((get_task c2 TFinish) <| pc := PF_Hello cid |>), o)
+    | None => (c2, o)
     end
   end.
 
